@@ -1,0 +1,8 @@
+//go:build !verif
+
+package transform
+
+// Verification hook (see verif_on.go); a compile-time no-op without the "verif" build tag.
+const verifOn = false
+
+func verifBWT(id any, task int, lo, hi int) {}
